@@ -459,7 +459,21 @@ pub fn check_c03(ix: &Ix<'_>, v: &mut Vec<Violation>) {
         }
     }
 
+    // the Maximum QoS in force (server roles): configured, or lowered by the handshake's CONNACK (MQTT 5)
+    let cfg = &ix.out.plan.cfg;
+    let max_qos = if ix.out.plan.role.is_server() { if v5 { cfg.hs_max_qos.unwrap_or(cfg.max_qos) } else { cfg.max_qos } } else { 2 };
+    for (_, p) in sent_pubs.iter().filter(|(_, p)| p.qos > max_qos) {
+        if ix.pub_gates(conn).any(|(_, seen)| seen.topic == p.topic) {
+            viol(v, "C03", format!("C03/unacceptable-publish-handled/{role}/q{}", p.qos), format!("Maximum QoS in force is {max_qos}, yet the QoS {} PUBLISH {:?} reached the handler", p.qos, p.topic), ix.last_seq);
+        }
+        if let Some(a) = acks.iter().find(|a| a.pkt.pid() == p.pid && matches!(a.pkt, Pkt::PubAck(_) | Pkt::PubRec(_))) {
+            viol(v, "C03", format!("C03/unacceptable-publish-acked/{role}/q{}", p.qos), format!("Maximum QoS in force is {max_qos}, yet the QoS {} PUBLISH {:?} was answered with {}", p.qos, p.topic, a.pkt.brief()), a.seq);
+        }
+    }
     for (s, p) in &sent_pubs {
+        if p.qos > max_qos {
+            continue;
+        }
         let gate = ix.pub_gates(conn).find(|(_, seen)| seen.topic == p.topic).map(|(g, _)| g);
         let Some(pid) = p.pid else {
             continue;
@@ -791,6 +805,60 @@ pub fn check_c06(ix: &Ix<'_>, v: &mut Vec<Violation>) {
     let role = ix.role();
     let v5 = ix.ver == Ver::V5;
     let deviated = ix.fault("ack_deviation") > 0;
+    // (1b) an identifier is refused as "in use" only while an exchange with it is under way: judged for the
+    // caller-chosen identifiers that only explicitly named sends can carry (>= 20: the library's own counter
+    // stays far below in these runs). Every other send naming the identifier has either not started yet or
+    // has completed (with its acknowledgement, or with a local failure, which must leave nothing behind).
+    {
+        use crate::plan::AppOp;
+        let named = |s: usize, o: usize| -> Option<(u16, bool)> {
+            match ix.out.plan.senders.get(s)?.get(o)? {
+                AppOp::PubQ1 { pid: Some(p), .. } | AppOp::StreamQ1 { pid: Some(p), .. } => Some((*p, false)),
+                AppOp::PubQ1Nb { pid, .. } => Some((pid.unwrap_or(200 + (s * 16 + o) as u16), false)),
+                AppOp::PubQ2 { pid: Some(p), .. } | AppOp::Subscribe { pid: Some(p), .. } | AppOp::Unsubscribe { pid: Some(p), .. } => Some((*p, true)),
+                _ => None,
+            }
+        };
+        for o in &ix.ops {
+            let Some((dsq, OpResult::Err(e))) = &o.done else { continue };
+            if !e.starts_with("PacketIdInUse(") {
+                continue;
+            }
+            let Some((n, _)) = named(o.sender, o.op) else { continue };
+            if n < 20 || ix.stops.iter().any(|s| s.0 < *dsq) || ix.conn_ended(0) {
+                continue;
+            }
+            let busy = ix.ops.iter().any(|x| {
+                (x.sender, x.op) != (o.sender, o.op)
+                    && x.start < *dsq
+                    && match named(x.sender, x.op) {
+                        Some((m, other_kind)) if m == n => {
+                            other_kind
+                                || match &x.done {
+                                    None => true,
+                                    Some((xd, OpResult::Ok(_) | OpResult::Err(_))) => *xd > o.start,
+                                    Some((_, OpResult::Cancelled)) => true,
+                                }
+                        }
+                        _ => false,
+                    }
+            });
+            // (an identifier the library picked itself may coincide: any such packet on the wire excuses)
+            let foreign = ix.eps.iter().any(|x| {
+                x.conn == 0 && x.seq < *dsq && x.pkt.pid() == Some(n) && op_of_packet(&x.pkt).is_none_or(|(s, oo)| named(s, oo).is_none_or(|(m, _)| m != n))
+            });
+            if !busy && !foreign {
+                viol(
+                    v,
+                    "C06",
+                    format!("C06/free-id-refused/{role}"),
+                    format!("sender {} op {} ({}) was refused with {e} although no exchange with that identifier was under way (every other send naming it had completed)", o.sender, o.op, o.brief),
+                    *dsq,
+                );
+                break;
+            }
+        }
+    }
     // (2) identifiers of simultaneously outstanding sends are non-zero and pairwise distinct
     let mut outstanding: Vec<u16> = Vec::new();
     for e in &ix.out.hist {
@@ -1213,7 +1281,10 @@ pub fn check_c11(ix: &Ix<'_>, v: &mut Vec<Violation>) {
         };
         // (control messages still buffered when the connection ends are flushed through the protocol
         // service during shutdown: such invocations are not "deliveries" of the request)
-        if let Some(g) = gate.filter(|g| first_end.is_none_or(|e| g.enter <= e)) {
+        // (with the option that keeps handling publishes after the connection has been closed, a publish
+        // handler invoked after the close is a delivery like any other)
+        let after_close_counts = matches!(r.kind, ReqKind::Pub1 | ReqKind::Pub2) && ix.out.plan.cfg.handle_qos_after_disconnect.is_some();
+        if let Some(g) = gate.filter(|g| after_close_counts || first_end.is_none_or(|e| g.enter <= e)) {
             r.fate = Fate::Handled(g.enter);
             r.gate = Some(g.id);
             continue;
